@@ -54,8 +54,10 @@ class Enum(Atom):
 
 
 class Label(Atom):
-    def __init__(self, ident):
+    def __init__(self, ident, excluded=None, not_in=()):
         self.ident = ident      # z3 Int identifying the label (equal ids <=> equal text)
+        self.excluded = excluded   # set of characters that never occur in it (None: default class)
+        self.not_in = frozenset(not_in)   # concrete strings the label is known to differ from
 
     def __repr__(self):
         return "Label(%s)" % self.ident
@@ -153,6 +155,8 @@ class TokStr:
 
     def __getattr__(self, name):
         # str methods are provided by tokparse (split, strip, replace, count, ...)
+        if name.startswith("__") or name in ("atoms", "z", "np"):
+            raise AttributeError(name)
         from . import tokparse
         f = getattr(tokparse, "m_" + name, None)
         if f is None:
